@@ -11,7 +11,7 @@ import tempfile
 
 import rx
 
-from ..common import Check, Outcome, Snap, subscribe, bootstrap, norm, WORK
+from ..common import Check, Outcome, Snap, subscribe, subscribe2, bootstrap, norm, WORK
 
 rs = bootstrap()
 import rxsci.framing.line as line                      # noqa: E402
@@ -55,9 +55,9 @@ def build_objs(spec):
     if spec.get('regular'):
         # tens of thousands of near-identical records: several MiB of text that compress to a few KiB,
         # so ONE compressed read chunk inflates to far more than any internal buffer
-        objs = [{'id': i, 'name': 'record', 'value': 1.5, 'tags': ['a', 'b'], 'ok': True} for i in range(spec['n'])]
+        objs = [{'id': 0 if spec.get('same') else i, 'name': 'record', 'value': 1.5, 'tags': ['a', 'b'], 'ok': True} for i in range(spec['n'])]
         if spec.get('long'):
-            objs[len(objs) // 2]['blob'] = 'xy' * (spec['long'] // 2)
+            objs[len(objs) // 2]['blob'] = ('xy' * (spec['long'] // 2)) if spec['long'] < (1 << 20) else 'x' * spec['long']
         return objs
     for i in range(spec['n']):
         alpha = spec['alpha'] if spec['alpha'] != 'mixed' else r.choice(list(STR_ALPHA))
@@ -103,7 +103,7 @@ class C19(Check):
             'Object counts 0, 1, few, and enough to fill 1..5 read chunks of 64 KiB. non-trivial = >= 2 objects; distinct = hash of the case')
     ASSUMPTIONS = ['orjson / json are trusted as JSON codecs; floats are finite; top-level items are dicts (domain of the property)']
     ANCHORS = ['rxsci/container/json.py', 'rxsci/io/file.py', 'rxsci/framing/line.py', 'rxsci/data/codec.py']
-    REQUIRED_TAGS = ['none', 'gzip', 'zstd', 'stream', 'path', 'fileobj', 'open_obj', 'empty', 'multi-chunk', 'astral', 'whole-document', 'over-1MiB-compressible']
+    REQUIRED_TAGS = ['none', 'gzip', 'zstd', 'stream', 'path', 'fileobj', 'open_obj', 'empty', 'multi-chunk', 'astral', 'whole-document', 'over-1MiB-compressible', 'gzip-ratio>32-over-2MiB']
     REQUIRED_OBSERVED = ['objects_compared']
 
     def __init__(self):
@@ -123,9 +123,14 @@ class C19(Check):
         modes = ['stream', 'reframed', 'path', 'fileobj', 'open_obj', 'whole']
         for k in range(n):
             if k % 40 == 20:
-                yield {'objs': {'n': rng.choice([30000, 45000]), 'alpha': 'plain', 'maxstr': 3, 'pad': 0, 'long': rng.choice([0, 150000]),
-                                'oseed': rng.randrange(1 << 30), 'regular': True},
-                       'compression': comps[(k // 40) % 3], 'mode': ['path', 'fileobj', 'open_obj'][(k // 120) % 3]}
+                # (codec, identical records?, one long string): a 64 KiB compressed read chunk inflating to > 2 MiB needs
+                # a ratio above 32, i.e. identical records or a multi-MiB run inside one string
+                j = k // 40
+                codec, same, long_ = [('gzip', True, 0), ('zstd', True, 0), ('gzip', False, 3 << 20), (None, False, 150000),
+                                      ('zstd', False, 3 << 20), ('gzip', False, 0), (None, True, 0)][j % 7]
+                yield {'objs': {'n': rng.choice([30000, 45000]) if not same else rng.choice([50000, 60000]), 'alpha': 'plain', 'maxstr': 3, 'pad': 0,
+                                'long': long_, 'same': same, 'oseed': rng.randrange(1 << 30), 'regular': True},
+                       'compression': codec, 'mode': ['path', 'fileobj', 'open_obj'][(j // 7) % 3]}
                 continue
             shape = k % 8
             if shape == 0:
@@ -159,10 +164,12 @@ class C19(Check):
             out.nontrivial = True
         if case['objs'].get('regular'):
             out.tags.append('over-1MiB-compressible')
+            if comp == 'gzip' and (case['objs'].get('same') or case['objs'].get('long', 0) >= (1 << 21)):
+                out.tags.append('gzip-ratio>32-over-2MiB')
         J = rs.container.json
 
         if mode in ('stream', 'reframed'):
-            d = subscribe(rx.from_(objs).pipe(J.dump()), Snap())
+            d = subscribe2(rx.from_(objs).pipe(J.dump()), out, 'dump')
             if d.err is not None or not d.done:
                 return out.fail('dump-failed', error=repr(d.err))
             if len(d.out) != len(objs):
@@ -178,7 +185,7 @@ class C19(Check):
                 cuts = sorted(set(r.randrange(1, len(blob)) for _ in range(min(20, max(0, len(blob) - 1))))) if len(blob) > 1 else []
                 from ..chunking import cut
                 src = rx.from_(cut(blob, cuts)).pipe(line.unframe())
-            got = subscribe(src.pipe(J.load()), Snap())
+            got = subscribe2(src.pipe(J.load()), out, 'load', same=lambda x, y: repr(x) == repr(y))
             size = sum(len(x) for x in d.out)
         elif mode == 'whole':
             # a single JSON document read back with lines=False (the file is decoded and parsed as a whole)
@@ -192,7 +199,7 @@ class C19(Check):
             if not os.path.exists(path):
                 return out.fail('dump_to_file-completed-without-creating-the-file', objects=len(objs), compression=comp)
             size = os.path.getsize(path)
-            got = subscribe(J.load_from_file(path, lines=False, compression=comp), Snap())
+            got = subscribe2(J.load_from_file(path, lines=False, compression=comp), out, 'load_from_file(lines=False)', same=lambda x, y: repr(x) == repr(y))
             out.tags.append('whole-document')
         else:
             size = None
@@ -211,7 +218,7 @@ class C19(Check):
                 if not os.path.exists(path):
                     return out.fail('dump_to_file-completed-without-creating-the-file', objects=len(objs), compression=comp)
                 size = os.path.getsize(path)
-                got = subscribe(J.load_from_file(path, compression=comp), Snap())
+                got = subscribe2(J.load_from_file(path, compression=comp), out, 'load_from_file', same=lambda x, y: repr(x) == repr(y))
             elif mode == 'fileobj':
                 path = os.path.join(self._tmpdir(), 'g.json')
                 with open(path, 'wb') as f:
